@@ -117,7 +117,7 @@ func (sc *Scenario) DefinitionCalls() []string {
 
 // Words share prefixes on purpose (abbreviation ambiguity, completion lists with several entries).
 var words = []string{"v", "ver", "verbose", "version", "val", "value", "values", "f", "fo", "foo", "force", "file", "files", "b", "bar", "baz", "build", "x", "xy", "q", "quiet", "quick", "d", "debug", "dry", "t", "tag", "tags", "n", "name", "V", "Ver", "File", "Q", "B", "Tag", "N", "Name", "include", "exclude", "valued", "dry-run", "dry-runs", "v2", "job-count", "jobs", "x-y", "1", "22", "build", "log", "a-very-long-option-name-that-forces-the-help-to-wrap-its-columns"}
-var cmdWords = []string{"build", "bench", "bump", "clean", "check", "clone", "test", "tidy", "run", "log", "logs", "login", "show", "slow", "status"}
+var cmdWords = []string{"build", "bench", "bump", "clean", "check", "clone", "test", "tidy", "run", "log", "logs", "login", "show", "slow", "status", "v2", "v10", "v1beta1", "v1"}
 
 func genOpts(r *simrt.RNG, taken map[string]bool, n int, reqBias int) []OptDef {
 	var out []OptDef
@@ -208,6 +208,9 @@ func genCmd(r *simrt.RNG, name string, taken map[string]bool, depth int, reqBias
 	}
 	if r.Intn(4) == 0 {
 		c.ArgComp = []string{"apple", "apricot", "banana", "avocado"}[:2+r.Intn(3)]
+		if r.Intn(4) == 0 {
+			c.ArgComp = append(c.ArgComp, "v2", "v10", "v1beta1")
+		}
 		if r.Intn(2) == 0 { // completion candidates that also come from another source, and repeats
 			c.ArgComp = append(c.ArgComp, cmdWords[r.Intn(len(cmdWords))], "apple", cmdWords[r.Intn(len(cmdWords))])
 		}
@@ -386,6 +389,10 @@ func Generate(seed uint64) *Scenario {
 				sc.Argv = append(sc.Argv, "help")
 			}
 		case 7:
+			if len(cur.Subs) > 0 && r.Intn(4) == 0 { // a display name given through Self, not a command key
+				sc.Argv = append(sc.Argv, []string{"tool", "cmd"}[r.Intn(2)])
+				break
+			}
 			sc.Argv = append(sc.Argv, []string{"pos", "help", "sub", "-", "b", "--", "--help", "-?", "c", "s", "lo", "log", "t", "cl"}[r.Intn(14)])
 		case 8: // short forms (mode dependent)
 			if len(names) > 0 {
@@ -403,6 +410,12 @@ func Generate(seed uint64) *Scenario {
 	collect = func(c *CmdDef) {
 		for i := range c.Opts {
 			if c.Opts[i].Env != "" && r.Intn(3) != 0 {
+				if r.Intn(5) == 0 {
+					// the exact name stays unset; two spellings that differ from it only in case are set
+					n := c.Opts[i].Env
+					sc.Env = append(sc.Env, [2]string{strings.ToLower(n), "from-lower"}, [2]string{n[:1] + strings.ToLower(n[1:]), "from-mixed"})
+					continue
+				}
 				sc.Env = append(sc.Env, [2]string{c.Opts[i].Env, valueFor(r, &c.Opts[i])})
 			}
 		}
@@ -411,6 +424,16 @@ func Generate(seed uint64) *Scenario {
 		}
 	}
 	collect(&sc.Root)
+	// one value per variable name (options of different nodes may name the same variable)
+	seenEnv := map[string]bool{}
+	var env [][2]string
+	for _, kv := range sc.Env {
+		if !seenEnv[kv[0]] {
+			seenEnv[kv[0]] = true
+			env = append(env, kv)
+		}
+	}
+	sc.Env = env
 	// COMP_LINE
 	cl := []string{"prog"}
 	cc := &sc.Root
